@@ -621,7 +621,7 @@ func setFromParamVal(buf []byte, pf *PFromBody) ErrorHdr {
 				if err == 0 && i < pf.vend {
 					d, err = pUInt64Val(buf[i+1 : pf.vend])
 				}
-				if err == 0 {
+				if err == 0 || err == ErrHdrNumTooBig {
 					if u > 1 || d > 999 || (u == 1 && d > 0) {
 						err = ErrHdrValBad
 						pf.ParamErr = err
@@ -665,17 +665,19 @@ func setFromParamVal(buf []byte, pf *PFromBody) ErrorHdr {
 
 func pUInt64Val(b []byte) (n uint64, err ErrorHdr) {
 
-	if len(b) > 20 {
-		err = ErrHdrValTooLong
-		return
-	}
-
 	for _, c := range b {
 		if c < '0' || c > '9' {
 			err = ErrHdrValNotNumber
 			return
 		}
-		n = n*10 + uint64(c-'0')
+		d := uint64(c - '0')
+		if n > (^uint64(0)-d)/10 {
+			// does not fit in 64 bits: saturate instead of wrapping around
+			n = ^uint64(0)
+			err = ErrHdrNumTooBig
+			continue
+		}
+		n = n*10 + d
 	}
 
 	return
